@@ -20,6 +20,7 @@ FOUND_BY = {
     'F16': 'C13 illegal-accepted (affine_int with per-entry type string)',
     'F17': 'C09 L3-objective (tag set_attached_after_st)', 'F18': 'C17 misuse-accepted (cross_kldiv)',
     'F19': 'C09 L3-solve-raises (shared random-part expression built before a later rvar)',
+    'F20': 'C13 illegal-accepted (affine_times_random: adaptation declared on a slice, product used inside E)',
 }
 
 LATER = {
